@@ -184,6 +184,25 @@ def stores_with_range(b, names):
                                 b.defs[l] = ds
                         out.append((t, (lo, bound) if side == "below" else (bound, hi)))
                     continue
+                # a store that stands under a comparison of the loop variable with a bound (`if i < bpp { A } else { B }` in one
+                # loop over lo..hi) is the update of the sub-range that comparison selects
+                import inv as _inv
+                ivn = b.pname({"l": iv, "p": []}, 1)
+                for g_, tr_ in _inv.rendered_guards(b, bi):
+                    m_ = re.match(r"^(Lt|Ge|Le|Gt)\((\w+),(\w+)\)$", g_)
+                    if not m_:
+                        continue
+                    op_, x_, y_ = m_.groups()
+                    if y_ == ivn and x_ != ivn:      # bound OP i  ->  i OP' bound
+                        op_, x_, y_ = {"Lt": "Gt", "Gt": "Lt", "Le": "Ge", "Ge": "Le"}[op_], y_, x_
+                    if x_ != ivn:
+                        continue
+                    below = (op_ == "Lt" and tr_) or (op_ == "Ge" and not tr_)
+                    above = (op_ == "Ge" and tr_) or (op_ == "Lt" and not tr_)
+                    if below:
+                        hi = y_
+                    elif above:
+                        lo = y_
                 out.append((wide("%s = %s" % (b.pname(s["lhs"], 2), b.rvname(s["rv"], 10))), (lo, hi)))
     finally:
         b.names = old
@@ -480,6 +499,32 @@ def run(ctx):
     filter_rules(ctx, F)
 
 
+def _feeds(b, rv, outs, depth=10):
+    """does this rvalue denote (a reference to / a view of) one of the locals in outs?"""
+    from mir import op_place as _opl
+
+    def loc(l, depth):
+        if l in outs:
+            return True
+        if depth <= 0:
+            return False
+        d = b.single_def(l)
+        if d is None:
+            return False
+        if d[2] == "rv":
+            return _feeds(b, d[3], outs, depth - 1)
+        if d[2] == "call" and d[3]["args"] and (d[3]["f"].get("fn") or "").rsplit("::", 1)[-1] in ("deref", "as_slice", "as_ref", "borrow", "index"):
+            q = _opl(d[3]["args"][0])
+            return q is not None and loc(q["l"], depth - 1)
+        return False
+    if rv["k"] == "ref":
+        return loc(rv["p"]["l"], depth)
+    if rv["k"] in ("use", "cast"):
+        q = _opl(rv["o"])
+        return q is not None and loc(q["l"], depth)
+    return False
+
+
 def filter_rules(ctx, F):
     """what the decoders of structural and content streams must get right whatever the caller: dispatch by filter name, predictor
     parameters and range, PNG reconstruction, LZW and ASCII85 constants and defaults."""
@@ -494,6 +539,59 @@ def filter_rules(ctx, F):
     want = {b"FlateDecode": "decompress_zlib", b"LZWDecode": "decompress_lzw", b"ASCII85Decode": "decode_ascii85"}
     ctx.ob("R-TABLE", "filter-dispatch", table == want, "dispatch %s" % {k.decode(): v for k, v in table.items()}, dc.where(),
            what="the filter dispatch table is %s, expected %s" % ({k.decode(): v for k, v in table.items()}, {k.decode(): v for k, v in want.items()}))
+    # 5a. a cascade of filters: each stage decodes what the previous stage produced.  The operand of the decoders is a variable
+    # assigned from the stream content before the loop and from the result of the stage on every turn of the loop.
+    import term as _term
+    stages = [c for c in dc.calls if c.local and re.search(r"Stream::(decompress_zlib|decompress_lzw|decode_ascii85)$", c.cname)]
+    okp, whyp = False, "no decoder calls"
+    loops_dc = dc.loops()
+    if stages:
+        from mir import op_place as _opl
+        ins_ = set()
+        for c in stages:
+            q = _opl(c.args[0])
+            rp = dc.root_place(q, through_names=False) if q is not None else None
+            ins_.add(rp["l"] if rp is not None and not [e for e in rp["p"] if e != "*"] else None)
+        inl = [(h, bl) for h, bl in loops_dc.items() if all(c.bb in bl for c in stages)]
+        if len(ins_) != 1 or None in ins_ or not inl:
+            whyp = "the decoders do not read one common variable inside one loop over the filters"
+        else:
+            iv = ins_.pop()
+            head, blocks = min(inl, key=lambda t: len(t[1]))
+            dsts = {c.dest["l"] for c in stages}
+            outs = set(dsts)
+            # the result variable: what the stage results are moved into (through `?`)
+            for _ in range(6):
+                for _b, _s, st_ in dc.stmts():
+                    if "lhs" in st_ and not st_["lhs"]["p"] and st_["rv"]["k"] == "use" and _opl(st_["rv"]["o"]) is not None and _opl(st_["rv"]["o"])["l"] in outs:
+                        outs.add(st_["lhs"]["l"])
+                for c2 in dc.calls:
+                    if (c2.fn or "").endswith("ops::Try::branch") and c2.args and _opl(c2.args[0]) is not None and _opl(c2.args[0])["l"] in outs:
+                        outs.add(c2.dest["l"])
+            inside = [d for d in dc.defs.get(iv, []) if d[0] in blocks and d[2] == "rv"]
+            outside = [d for d in dc.defs.get(iv, []) if d[0] not in blocks]
+            fed = [d for d in inside if _feeds(dc, d[3], outs)]
+            if not outside:
+                whyp = "the decoder input is not initialised from the stream content before the loop"
+            elif not fed:
+                whyp = "inside the loop the decoder input is never re-assigned from the output of the stage: every filter of a cascade decodes the raw stream content"
+            elif not _term.every_cycle_passes(dc, head, blocks, [d[0] for d in fed]):
+                whyp = "a turn of the loop can go round again without handing the stage's output on"
+            else:
+                okp, whyp = True, "input = content before the loop, input = &output on every turn"
+    ctx.ob("R-ORDER", "filter-cascade-feeds-forward", okp, whyp, dc.where(),
+           what="Stream::decompressed_content: %s (a stream with /Filter [/ASCII85Decode /FlateDecode] is inflated from its ASCII85 text)" % whyp)
+    # 5b. both filters that can carry a predictor (ISO 32000-1 Table 8: LZWDecode and FlateDecode) undo it: what they return is
+    # the result of decompress_predictor(decoded, params)
+    for fn_ in ("Stream::decompress_zlib", "Stream::decompress_lzw"):
+        fb_ = F.fn(fn_)
+        pcs = [(x, c) for x in lib.local_scope(F, fb_) for c in x.calls if c.local and c.cname.endswith("Stream::decompress_predictor")]
+        okq = False
+        if len(pcs) == 1 and pcs[0][0] is fb_:
+            c = pcs[0][1]
+            okq = c.dest["l"] == 0 and not c.dest["p"] and lib.same_origin(F, fb_, c.args[1], fb_, 2)
+        ctx.ob("R-SIB", "predictor-undone|%s" % fn_.rsplit("::", 1)[-1], okq, "%s returns decompress_predictor(decoded, params)" % fn_, fb_.where(),
+               what="%s does not return decompress_predictor(decoded data, its DecodeParms): a stream of this filter with /Predictor >= 2 comes out with the filter-type bytes and the deltas still in it" % fn_)
     # 6. predictor geometry
     pr = F.fn("Stream::decompress_predictor")
     import byteset
